@@ -210,7 +210,19 @@ func implicitOf(data []byte) int64 {
 	if implicitMemo.data == &data[0] && implicitMemo.n == len(data) {
 		return implicitMemo.v
 	}
-	implicitMemo.data, implicitMemo.n, implicitMemo.v = &data[0], len(data), scanShape(data).implicit
+	// a flat scan for trun headers wherever they stand (the library decodes children of many box types, more than
+	// scanShape descends into): an over-approximation, which is the safe direction for an allowance
+	var v int64
+	for i := 4; i+12 <= len(data); i++ {
+		if data[i] == 't' && data[i+1] == 'r' && data[i+2] == 'u' && data[i+3] == 'n' {
+			flags := uint32(data[i+5])<<16 | uint32(data[i+6])<<8 | uint32(data[i+7])
+			count := uint32(data[i+8])<<24 | uint32(data[i+9])<<16 | uint32(data[i+10])<<8 | uint32(data[i+11])
+			if flags&0xf00 == 0 && count <= 1024 {
+				v += int64(count)
+			}
+		}
+	}
+	implicitMemo.data, implicitMemo.n, implicitMemo.v = &data[0], len(data), v
 	return implicitMemo.v
 }
 
